@@ -261,7 +261,8 @@ static int c07_run(Ctx &ctx) {
       int k = g::wpick({7, 1, 1, 1});
       Bytes s = k == 0 ? g::valid_setting(g::any_method(), o).s : k == 1 ? Bytes("*0") : k == 2 ? g::mutate(g::valid_setting(g::any_method(), o).s, 1, true) : Bytes("$zz$x");
       c.set("s" + std::to_string(i), s);
-      c.set("p" + std::to_string(i), k == 3 ? g::phrase_of_len(520) : g::phrase(100));
+      // all length classes: bigcrypt's block loop ends differently at <= 128 and > 128 characters
+      c.set("p" + std::to_string(i), k == 3 ? g::phrase_of_len(520) : g::coin(1, 3) ? g::phrase(511) : g::phrase(100));
     }
     int nobj = (int)g::pick(1, 4);
     Bytes oi;
